@@ -266,10 +266,14 @@ def export_laws(res, rng):
                 res.case(("c18-export-grain", fm, proc, tuple(reac)), nontrivial=True)
 
 
-def export_cli(res, net, tag):
-    """the real path: Network.export -> `naunet render`; every k[i] of the re-rendered sources equals the direct rendering"""
+def export_cli(res, net, tag, before=None):
+    """the real path: Network.export -> `naunet render`; every k[i] of the re-rendered sources equals the direct rendering.
+    With `before`, another network was exported into the same directory first (export with overwrite=True replaces it)"""
     from .. import ratelib
     d = ol.scratch_dir()
+    if before is not None:
+        with quiet():
+            before.export("proj", prefix=d, overwrite=True)
     direct = ol.render(net, templates=["src/naunet_rates.cpp.j2", "include/naunet_macros.h.j2"])
     s1 = ratelib.rates_statements((direct / "src" / "naunet_rates.cpp").read_text())
     with quiet():
@@ -338,6 +342,14 @@ def run(res, info):
         net = Network(filelist=str(fw.REPO / "tests/data/minimal.kida"), fileformats="kida",
                       rate_modifier={idxs[0]: 0.0, idxs[-1]: "1.0e-12 * sqrt(Tgas)"})
     export_cli(res, net, "tests/data/minimal.kida with rate modifiers {first: 0.0, last: expression}")
+    # ... and on a project directory that already holds the export of another network
+    reset_globals()
+    with quiet():
+        old = Network(filelist=str(fw.REPO / "tests/data/minimal.kida"), fileformats="kida")
+        new = Network(filelist=str(fw.REPO / "tests/data/minimal.kida"), fileformats="kida")
+        new.reaction_list[0].alpha = new.reaction_list[0].alpha * 2.5
+        new.add_reaction(Reaction(["CO", "PHOTON"], ["C", "O"], -1.0, -1.0, 1.1e-9, 0.0, 1.7, ReactionType.GAS_PHOTON, idxfromfile=9001))
+    export_cli(res, new, "an edited network exported (overwrite=True) over the export of tests/data/minimal.kida", before=old)
     if model:
         model.close()
 
